@@ -171,3 +171,198 @@ Section GenericSize.
       intros H1 H2. apply Hno2; lia.
   Qed.
 End GenericSize.
+
+Section GenericSize2.
+  Context {St : Type} (nx : St -> ret Z St) (sz : St -> nat) (F : nat).
+  Hypothesis Hsz : szZ nx sz F.
+
+  (* Chunk *)
+  Lemma ichunk_loop_sz n size : forall chunk s o s' ev,
+    ichunk_loop nx n size chunk s = (o, s', ev) ->
+    (match o with
+     | Item l => length l + 2 * sz s' <= length chunk + 2 * sz s /\ l <> []
+     | _ => sz s' <= sz s
+     end)%nat /\
+    ((sz s < n)%nat -> (sz s <= F)%nat -> o <> Out).
+  Proof.
+    induction n as [|n IH]; intros chunk s o s' ev Hc; simpl in Hc.
+    - inv_ret Hc. szsolve.
+    - destruct (nx s) as [[o1 s1] ev1] eqn:E. destruct (Hsz _ _ _ _ E) as [Hd Hno].
+      destruct o1 as [x| | | |]; try (inv_ret Hc; szsolve; fail).
+      + destruct (zlen (chunk ++ [x]) =? size).
+        * inv_ret Hc. split; [|szsolve]. rewrite app_length. simpl. split; [lia|].
+          intros Hx. apply app_eq_nil in Hx. destruct Hx; discriminate.
+        * destruct (ichunk_loop nx n size (chunk ++ [x]) s1) as [[o2 s2] ev2] eqn:E2.
+          simpl in Hc. inv_ret Hc. destruct (IH _ _ _ _ _ E2) as [Hd2 Hno2].
+          split.
+          -- destruct o; try lia. rewrite app_length in Hd2. simpl in Hd2.
+             destruct Hd2 as [Hd2 Hne]. split; [lia|exact Hne].
+          -- intros H1 H2. apply Hno2; lia.
+      + destruct (0 <? zlen chunk) eqn:Ez; inv_ret Hc; [|szsolve].
+        split; [|szsolve]. split; [lia|]. intros Hx; subst chunk. discriminate Ez.
+  Qed.
+
+  Lemma ichunk_sz n size s o s' ev :
+    ichunk nx n size s = (o, s', ev) ->
+    (match o with
+     | Item l => length l + 2 * sz s' <= 2 * sz s /\ (l = [] -> 2 * sz s' < 2 * sz s)
+     | _ => 2 * sz s' <= 2 * sz s
+     end)%nat /\
+    ((sz s < n)%nat -> (sz s <= F)%nat -> o <> Out).
+  Proof.
+    unfold ichunk. destruct (size <? 0).
+    - intros Hc. inv_ret Hc. szsolve.
+    - intros Hc. destruct (ichunk_loop_sz _ _ _ _ _ _ _ Hc) as [Hd Hno].
+      split; [|exact Hno]. destruct o; try lia. destruct Hd as [Hd Hne]. simpl in Hd.
+      split; [lia|]. intros Hx; destruct (Hne Hx).
+  Qed.
+
+  (* Runs (iterator) *)
+  Variable r : rel.
+  Definition rsz (cur : runcur) (p : pk St) : nat :=
+    runs_w r cur (pk_has p) (pk_curr p) + 3 * sz (pk_in p).
+
+  Lemma ipk_peek_item p x p' ev :
+    ipk_peek nx p = (Item x, p', ev) -> pk_has p' = true /\ pk_curr p' = x.
+  Proof.
+    destruct p as [has curr s]. unfold ipk_peek. simpl. destruct has.
+    - intros Hc. inv_ret Hc. auto.
+    - destruct (nx s) as [[o1 s1] ev1]. destruct o1; intros Hc; inv_ret Hc. auto.
+  Qed.
+
+  Lemma runs_w_le2 cur has curr : (runs_w r cur has curr <= 2)%nat.
+  Proof.
+    unfold runs_w. destruct has; [|lia]. destruct cur as [[prev [|]]|]; try lia.
+    destruct (rel_eval r prev curr); lia.
+  Qed.
+
+  Lemma ipk_peek_rsz cur p o p' ev :
+    ipk_peek nx p = (o, p', ev) ->
+    (rsz cur p' <= rsz cur p)%nat /\ (sz (pk_in p') <= sz (pk_in p))%nat /\
+    ((sz (pk_in p) <= F)%nat -> o <> Out).
+  Proof.
+    destruct p as [has curr s]. unfold ipk_peek, rsz. simpl. destruct has.
+    - intros Hc. inv_ret Hc. simpl. szsolve.
+    - destruct (nx s) as [[o1 s1] ev1] eqn:E. destruct (Hsz _ _ _ _ E) as [Hd Hno].
+      intros Hc. destruct o1 as [x| | | |]; inv_ret Hc; simpl; try (szsolve; fail).
+      pose proof (runs_w_le2 cur true x). szsolve.
+  Qed.
+
+  Lemma iruns_inner_sz cur p o cur' p' ev :
+    iruns_inner nx r cur p = (o, (cur', p'), ev) ->
+    (match o with
+     | Item _ => rsz (Some cur') p' < rsz (Some cur) p
+     | End => rsz (Some cur') p' <= rsz (Some cur) p /\ snd cur' = false
+     | _ => rsz (Some cur') p' <= rsz (Some cur) p
+     end)%nat /\ (sz (pk_in p') <= sz (pk_in p))%nat /\
+    ((sz (pk_in p) <= F)%nat -> o <> Out).
+  Proof.
+    destruct cur as [prev alive]. unfold iruns_inner. destruct alive; simpl.
+    - destruct (ipk_peek nx p) as [[o1 p1] ev1] eqn:E1.
+      destruct (ipk_peek_rsz (Some (prev, true)) _ _ _ _ E1) as (Hd1 & Hs1 & Hno1).
+      destruct o1 as [x| | | |].
+      + destruct (ipk_peek_item _ _ _ _ E1) as [Hh Hcu].
+        destruct (rel_eval r prev x) eqn:Es.
+        * destruct p1 as [has1 curr1 s1]. simpl in *. subst has1 curr1.
+          unfold ipk_next. simpl. intros Hc. inv_ret Hc.
+          unfold rsz in *. simpl in *. rewrite Es in Hd1. szsolve.
+        * intros Hc. inv_ret Hc. unfold rsz in *.
+          destruct p' as [has1 curr1 s1]. simpl in *. subst has1 curr1.
+          simpl in *. rewrite Es in Hd1. szsolve.
+      + intros Hc. inv_ret Hc. simpl. unfold rsz in *.
+        destruct p' as [has1 curr1 s1]. simpl in *.
+        assert (Hh : has1 = false).
+        { destruct p as [has curr s]. unfold ipk_peek in E1. simpl in E1. destruct has.
+          - discriminate.
+          - destruct (nx s) as [[o2 s2] ev2]. destruct o2; inv_ret E1; reflexivity. }
+        subst has1. simpl in *. szsolve.
+      + intros Hc. inv_ret Hc. simpl. szsolve.
+      + intros Hc. inv_ret Hc. simpl. szsolve.
+      + intros Hc. inv_ret Hc. simpl. szsolve.
+    - intros Hc. inv_ret Hc. szsolve.
+  Qed.
+
+  Lemma iruns_drain_sz n : forall cur p o cur' p' ev,
+    iruns_drain nx n r cur p = (o, (cur', p'), ev) ->
+    (rsz (Some cur') p' <= rsz (Some cur) p)%nat /\ (sz (pk_in p') <= sz (pk_in p))%nat /\
+    (o = End -> snd cur' = false) /\
+    ((rsz (Some cur) p < n)%nat -> (sz (pk_in p) <= F)%nat -> o <> Out).
+  Proof.
+    induction n as [|n IH]; intros cur p o cur' p' ev Hc; simpl in Hc.
+    - inv_ret Hc. szsolve.
+    - destruct (iruns_inner nx r cur p) as [[o1 [cur1 p1]] ev1] eqn:E1.
+      destruct (iruns_inner_sz _ _ _ _ _ _ E1) as (Hd1 & Hs1 & Hno1).
+      destruct o1 as [x| | | |]; try (inv_ret Hc; szsolve; fail).
+      + destruct (iruns_drain nx n r cur1 p1) as [[o2 [cur2 p2]] ev2] eqn:E2.
+        simpl in Hc. inv_ret Hc. destruct (IH _ _ _ _ _ _ E2) as (Hd2 & Hs2 & He2 & Hno2).
+        split; [lia|]. split; [lia|]. split; [exact He2|].
+        intros H1 H2. apply Hno2; lia.
+      + inv_ret Hc. destruct Hd1 as [Hd1 Ha]. szsolve.
+  Qed.
+
+  Lemma iruns_take_sz n : forall k acc cur p o cur' p' ev,
+    iruns_take nx n r k acc cur p = (o, (cur', p'), ev) ->
+    (match o with
+     | Item l => length l + rsz (Some cur') p' <= length acc + rsz (Some cur) p
+     | _ => rsz (Some cur') p' <= rsz (Some cur) p
+     end)%nat /\ (sz (pk_in p') <= sz (pk_in p))%nat /\
+    ((rsz (Some cur) p < n)%nat -> (sz (pk_in p) <= F)%nat -> o <> Out).
+  Proof.
+    induction n as [|n IH]; intros k acc cur p o cur' p' ev Hc; simpl in Hc.
+    - inv_ret Hc. szsolve.
+    - assert (Hgo :
+        (let '(o, (cur', p'), ev) := iruns_inner nx r cur p in
+         match o with
+         | Item x => after ev (iruns_take nx n r (option_map Nat.pred k) (acc ++ [x]) cur' p')
+         | End => (Item acc, (cur', p'), ev)
+         | _ => (pass o, (cur', p'), ev)
+         end) = (o, (cur', p'), ev) ->
+        (match o with
+         | Item l => length l + rsz (Some cur') p' <= length acc + rsz (Some cur) p
+         | _ => rsz (Some cur') p' <= rsz (Some cur) p
+         end)%nat /\ (sz (pk_in p') <= sz (pk_in p))%nat /\
+        ((rsz (Some cur) p < S n)%nat -> (sz (pk_in p) <= F)%nat -> o <> Out)).
+      { intros Hc'.
+        destruct (iruns_inner nx r cur p) as [[o1 [cur1 p1]] ev1] eqn:E1.
+        destruct (iruns_inner_sz _ _ _ _ _ _ E1) as (Hd1 & Hs1 & Hno1).
+        destruct o1 as [x| | | |]; try (inv_ret Hc'; szsolve; fail).
+        - destruct (iruns_take nx n r (option_map Nat.pred k) (acc ++ [x]) cur1 p1)
+            as [[o2 [cur2 p2]] ev2] eqn:E2.
+          simpl in Hc'. inv_ret Hc'. destruct (IH _ _ _ _ _ _ _ _ E2) as (Hd2 & Hs2 & Hno2).
+          split; [|split; [lia|intros H1 H2; apply Hno2; lia]].
+          destruct o; try lia. rewrite app_length in Hd2. simpl in Hd2. lia.
+        - inv_ret Hc'. destruct Hd1 as [Hd1 _]. szsolve. }
+      destruct k as [[|k]|]; [inv_ret Hc; szsolve|exact (Hgo Hc)|exact (Hgo Hc)].
+  Qed.
+
+  Lemma iruns_sz n k cur p o cur' p' ev :
+    iruns nx n r k cur p = (o, (cur', p'), ev) ->
+    (match o with
+     | Item l => length l + rsz cur' p' < rsz cur p
+     | _ => rsz cur' p' <= rsz cur p
+     end)%nat /\
+    ((rsz cur p < n)%nat -> (sz (pk_in p) <= F)%nat -> o <> Out).
+  Proof.
+    unfold iruns.
+    assert (Hdr : exists o1 p1 ev1,
+               match cur with
+               | Some c => let '(o, (_, p'), ev) := iruns_drain nx n r c p in (o, p', ev)
+               | None => (End, p, [])
+               end = (o1 : res unit, p1, ev1) /\
+               (rsz None p1 <= rsz cur p)%nat /\ (sz (pk_in p1) <= sz (pk_in p))%nat /\
+               (o1 <> End -> rsz cur p1 <= rsz cur p)%nat /\
+               ((rsz cur p < n)%nat -> (sz (pk_in p) <= F)%nat -> o1 <> Out)).
+    { destruct cur as [c|].
+      - destruct (iruns_drain nx n r c p) as [[o1 [c1 p1]] ev1] eqn:E1.
+        destruct (iruns_drain_sz _ _ _ _ _ _ _ E1) as (Hd1 & Hs1 & He1 & Hno1).
+        exists o1, p1, ev1. split; [reflexivity|].
+        assert (Hw : (rsz None p1 <= rsz (Some c) p)%nat).
+        { unfold rsz in *. pose proof (runs_w_le2 (Some c1) (pk_has p1) (pk_curr p1)).
+          destruct c1 as [pr1 al1]. unfold runs_w in *.
+          destruct (pk_has p1); [|lia]. destruct al1; [|lia].
+          admit. }
+        admit.
+      - exists End, p, []. split; [reflexivity|]. szsolve. }
+    admit.
+  Admitted.
+End GenericSize2.
